@@ -148,6 +148,10 @@ var clauseKeywords = map[string]bool{"assumes": true, "interference": true, "def
 	"requires": true, "ensures": true, "modifies": true, "loop": true, "define": true, "spec": true, "axiom": true,
 	"let": true, "lemma": true, "assume": true}
 
+// schemaUpdateLists: (list type, slice field, element type) of every model type with an UpdateList method,
+// computed by the loader from go/types before the contract files are read.
+var schemaUpdateLists [][3]string
+
 var pkgPaths = map[string]string{
 	"spine": "github.com/enbility/spine-go/spine",
 	"model": "github.com/enbility/spine-go/model",
@@ -208,6 +212,31 @@ func (db *DB) loadFile(path, pkg string) error {
 		} else {
 			return fmt.Errorf("%s:%d: continuation without clause", path, ln)
 		}
+	}
+	// contract schemas: a block whose func line mentions $LIST is instantiated once per list type of the model
+	// package that implements Updater ($LIST = the list type, $F = its slice field, $ELEM = the element type);
+	// the instances are computed from go/types on every run (schemaUpdateLists)
+	{
+		var exp []rawClause
+		for i := 0; i < len(raws); i++ {
+			if !(strings.HasPrefix(raws[i].text, "func") && strings.Contains(raws[i].text, "$LIST")) {
+				exp = append(exp, raws[i])
+				continue
+			}
+			j := i
+			for j < len(raws) && raws[j].text != "end" {
+				j++
+			}
+			for _, inst := range schemaUpdateLists {
+				for k := i; k < j; k++ {
+					t := strings.NewReplacer("$LIST", inst[0], "$F", inst[1], "$ELEM", inst[2]).Replace(raws[k].text)
+					exp = append(exp, rawClause{t, raws[k].line})
+				}
+				exp = append(exp, rawClause{"end", raws[i].line})
+			}
+			i = j
+		}
+		raws = exp
 	}
 	var cur *FuncContract
 	for _, rc := range raws {
